@@ -25,7 +25,11 @@ def main():
             rel, old, new = edits[i : i + 3]
             p = os.path.join(b, "Geometry3D", rel)
             s = open(p).read()
-            if s.count(old) != 1:
+            if old.startswith("ALL:"):
+                old = old[4:]
+                if s.count(old) < 1:
+                    raise SystemExit("%s: no occurrence of %r in %s" % (name, old, rel))
+            elif s.count(old) != 1:
                 raise SystemExit("%s: %d occurrences of %r in %s" % (name, s.count(old), old, rel))
             open(p, "w").write(s.replace(old, new))
         diff = subprocess.run(["diff", "-ruN", "a", "b"], cwd=tmp, capture_output=True, text=True).stdout
